@@ -127,6 +127,7 @@ func c20seq(c *Ctx) {
 	}
 	if c.Shard == 0 {
 		c20failedOpens(c)
+		c20manyHolders(c, m, data, rng)
 	}
 	c.exh = true
 	idx := 0
@@ -442,4 +443,53 @@ func c20failedOpens(c *Ctx) {
 		os.Remove(path)
 		c.End()
 	}
+}
+
+// c20manyHolders: more holders than fit in 16 bits. The segment stays mapped and
+// readable until the last of them lets go, and is released exactly then.
+func c20manyHolders(c *Ctx, m *model.Seg, data []byte, rng *rand.Rand) {
+	if !c.Case("many-holders", map[string]interface{}{"holders": 65600}) {
+		return
+	}
+	defer c.End()
+	path := c.Scratch.Path("c20-many")
+	if err := os.WriteFile(path, data, 0600); err != nil {
+		c.R.Fail("harness", "%v", err)
+		return
+	}
+	defer os.Remove(path)
+	guard(c.R, "many-holders", func() {
+		seg, err := zx.Open(path)
+		if err != nil {
+			c.R.Fail("open-err", "many-holders: %v", err)
+			return
+		}
+		const extra = 65600
+		for k := 0; k < extra; k++ {
+			seg.AddRef()
+		}
+		sampleRead(c.R, "many-holders after the AddRefs", seg, m, rng)
+		for k := 0; k < extra; k++ {
+			if err := seg.DecRef(); err != nil {
+				c.R.Fail("release-error", "many-holders: DecRef %d of %d (holders left: %d) returned %v", k+1, extra, extra-k, err)
+				return
+			}
+			if k == 0 || k == 63 || k == 64 || k == 65 || k == extra-2 || k == extra-1 {
+				if mp, fd := procState(path); !mp || fd != 1 {
+					c.R.Fail("released-early", "many-holders: after DecRef %d of %d (holders left: %d) mapped=%v fds=%d", k+1, extra, extra-k, mp, fd)
+					return
+				}
+				c.R.Inc("proc_inspections", 1)
+			}
+		}
+		sampleRead(c.R, "many-holders before the last release", seg, m, rng)
+		if err := seg.Close(); err != nil {
+			c.R.Fail("release-error", "many-holders: the final Close returned %v", err)
+		}
+		if mp, fd := procState(path); mp || fd != 0 {
+			c.R.Fail("not-released", "many-holders: after the final release mapped=%v fds=%d", mp, fd)
+		}
+		c.R.Inc("many_holder_sequences", 1)
+	})
+	c.DistinctN(1)
 }
